@@ -21,6 +21,13 @@
     and otherwise fails the struct ("missing field");
   * serialisation writes the fields in declaration order, leaving out those whose
     `skip_serializing_if` holds; a flattened map is written after/among them entry by entry.
+  * a struct-level `#[serde(tag = "k", rename = "c")]` (`Reference`, `Annotation`, …) is
+    serialise-only: `k: "c"` is written first, and on input `k` is one more unknown key (`ghost`);
+  * a scalar type (`String`, identifiers, string enums, `Base64`, `Int`/`UInt`, `bool`, `f64`,
+    `VoipVersionId`, `deserialize_v1_powerlevel`) reads one JSON scalar and writes one back, most of
+    them the same one (`Schema.scalar`, instances at the end of this file);
+  * `#[serde(tag = "k")]` enums of structs (internally tagged): the string under `k` selects the
+    struct (`tagged`);
   * `Vec<T>`: every element is read with `T`; `BTreeMap<K, V>`: every entry is read (key parsed
     with `K`, value with `V`, any error fails), then inserted — a later duplicate key replaces the
     earlier, the map iterates in ascending key order; `serde_json::Value` / `JsonObject`: every
